@@ -254,25 +254,36 @@ def check_stable(ck, tu, fn, tag):
 
 
 def check_equally_split(ck, tu):
+    """SPLIT-INDEX-BOUND: equally_split() is pure integer code; it is evaluated for n = 1..12, p = 1..6: the p + 1 positions
+    written are 0, ..., n with the interior ones equal to the even split clamped to n - 1 (determine_samples() uses them as
+    element indices)"""
+    from engine import skel
     for fn in tu.some(qname="tlx::multiway_merge_detail::equally_split"):
-        n = fn.params[0]["did"]
-        start = [x["did"] for x in fn.nodes() if x["k"] == "VarDecl" and x["name"] == "start"]
-        ck.require(start, "%s: running split position not found" % fn.loc)
-        ok_clamp = False
-        for x in fn.nodes():
-            if x["k"] == "IfStmt":
-                b = match.binop(kids(x)[0], (">=", ">"))
-                asg = [match.binop(y, ("=",)) for y in ir.walk(kids(x)[1]) if match.binop(y, ("=",)) and ref_of(match.binop(y, ("=",))[1]) == start[0]]
-                if b and ref_of(b[1]) == start[0] and ref_of(b[2]) == n and asg:
-                    v = match.binop(asg[0][2], ("-",))
-                    if b[0] == ">=" and v and ref_of(v[1]) == n and const_int(v[2]) == 1:
-                        ok_clamp = True
-                    elif b[0] == ">":
-                        ok_clamp = "weak"
-        if ok_clamp is True:
-            ck.ok("SPLIT-INDEX-BOUND", "equally_split<%s>" % fn.targs[0], "interior split positions are clamped to n - 1 (they are used as element indices by determine_samples)")
+        BASE = 1000
+        bad = None
+        for n in range(1, 13):
+            for p in range(1, 7):
+                sk = skel.Skel(fn, {fn.params[0]["did"]: n, fn.params[1]["did"]: p, fn.params[2]["did"]: BASE}, None, None, max_iter=32)
+                try:
+                    sk.run(kids(fn.body))
+                    ret = None
+                except skel.Return as r_:
+                    ret = r_.v
+                got = [sk.env.get(("mem", BASE + i)) for i in range(p + 1)]
+                extra = [k_ for k_ in sk.env if isinstance(k_, tuple) and k_[0] == "mem" and not (BASE <= k_[1] <= BASE + p)]
+                want = [min(i * (n // p) + min(i, n % p), n - 1) for i in range(p)] + [n]
+                if (got != want or extra or ret != BASE + p + 1) and bad is None:
+                    bad = (n, p, got, want, ret, extra)
+        if bad:
+            n, p, got, want, ret, extra = bad
+            over = [v for v in got[:-1] if isinstance(v, int) and v >= n]
+            ck.violation("SPLIT-INDEX-BOUND", fn.qname, "clamp",
+                         ("interior split positions can reach n (n = %d, p = %d gives %s): determine_samples() reads source[start + split], one past the thread's chunk"
+                          % (n, p, got)) if over else
+                         "equally_split(n = %d, p = %d) writes %s%s, the even split clamped to n - 1 is %s" % (n, p, got, " and positions outside [s, s + p]" if extra else "", want),
+                         fn.loc)
         else:
-            ck.violation("SPLIT-INDEX-BOUND", fn.qname, "clamp", "interior split positions can reach n: determine_samples() reads source[start + split], one past the thread's chunk", fn.loc)
+            ck.ok("SPLIT-INDEX-BOUND", "equally_split<%s>" % fn.targs[0], "n = 1..12, p = 1..6: positions 0 .. n, interior ones the even split clamped to n - 1")
     for fn in tu.some(qname="tlx::parallel_mergesort_detail::determine_samples"):
         # the samples read es[i + 1] for i < num_samples, i.e. interior positions only
         rd = [x for x in fn.nodes() if match.index_parts(x) and ir.ref_name(match.index_parts(x)[0]) == "es" and x["k"] in ("CXXOperatorCallExpr", "ArraySubscriptExpr")]
